@@ -113,7 +113,7 @@ impl Ev {
     }
 }
 
-const TOOLS: &[&str] = &["ls", "grep", "read", "write", "nope"];
+pub const TOOLS: &[&str] = &["ls", "grep", "read", "write", "nope"];
 
 /// patches a model may produce: well formed, failing, and malformed in the ways models get them wrong
 pub const PATCHES: &[&str] = &[
@@ -486,6 +486,8 @@ pub struct E2eConfig {
 }
 
 pub struct E2eResult {
+    /// the store's truth log as the run left it
+    pub log: Vec<u8>,
     pub bodies: Vec<Value>,
     pub frames: Vec<Value>,
     pub reason: String,
@@ -542,7 +544,73 @@ pub fn run_e2e(cfg: &E2eConfig, script: Vec<Resp>, prompt: &str) -> E2eResult {
     let bodies = provider.bodies();
     let mut files: Vec<String> = std::fs::read_dir(&ws).unwrap().filter_map(|e| e.ok()).map(|e| e.file_name().to_string_lossy().to_string()).filter(|n| n != ".rip" && n != "seed.txt").collect();
     files.sort();
-    E2eResult { bodies, frames, reason, files }
+    let log = std::fs::read(data_dir.join("events.jsonl")).unwrap_or_default();
+    E2eResult { log, bodies, frames, reason, files }
+}
+
+/// The same loop reached through the thread API: the run is the answer to the LAST of `prior + 1`
+/// messages of one thread, so its first request carries the compiled context of the earlier turns
+/// (each answered with plain text by the scripted provider), not the bare prompt. Tool choice is the
+/// thread path's default. `bodies` are the requests of the last run only.
+pub fn run_e2e_thread(cfg: &E2eConfig, prior: usize, script: Vec<Resp>, prompt: &str) -> E2eResult {
+    use crate::http::call_json;
+    let scratch = Scratch::new("c16t");
+    let data_dir = scratch.path().join("data");
+    let ws = scratch.path().join("ws");
+    std::fs::create_dir_all(&ws).unwrap();
+    std::fs::write(ws.join("seed.txt"), "seed\n").unwrap();
+    let mut full: Vec<Resp> = (0..prior)
+        .map(|k| {
+            let body = format!(
+                "data: {}\n\ndata: {}\n\ndata: [DONE]\n\n",
+                json!({"type": "response.output_text.delta", "delta": format!("earlier answer {k}")}),
+                json!({"type": "response.completed", "response": {"id": format!("resp_prior_{k}"), "output": []}})
+            );
+            Resp::Sse { body: body.into_bytes(), chunk: 0, cut_at: None }
+        })
+        .collect();
+    full.extend(script);
+    let provider = ScriptedProvider::start(full);
+    let rt = tokio::runtime::Builder::new_multi_thread().worker_threads(3).enable_all().build().unwrap();
+    let mut sid = String::new();
+    let mut prior_requests = 0usize;
+    {
+        let app = ripd::verif_export::VerifApp::new(data_dir.clone(), ws.clone());
+        rt.block_on(async {
+            let (_, v) = call_json(&app.router, "POST", "/threads/ensure", None).await;
+            let tid = v["thread_id"].as_str().unwrap_or("").to_string();
+            for k in 0..=prior {
+                let mut or = json!({"endpoint": provider.endpoint, "model": "m", "stateless_history": cfg.stateless, "parallel_tool_calls": cfg.parallel});
+                let content = if k == prior {
+                    if let Some(f) = &cfg.followup {
+                        or["followup_user_message"] = json!(f);
+                    }
+                    prior_requests = provider.bodies().len();
+                    prompt.to_string()
+                } else {
+                    format!("earlier question {k}")
+                };
+                let (_, v) = call_json(&app.router, "POST", &format!("/threads/{tid}/messages"), Some(json!({"content": content, "openresponses": or}))).await;
+                sid = v["session_id"].as_str().unwrap_or("").to_string();
+                for _ in 0..3000 {
+                    let text = std::fs::read_to_string(data_dir.join("events.jsonl")).unwrap_or_default();
+                    if text.lines().any(|l| l.contains("continuity_run_ended") && l.contains(&sid)) {
+                        break;
+                    }
+                    tokio::time::sleep(std::time::Duration::from_millis(10)).await;
+                }
+            }
+        });
+    }
+    drop(rt);
+    let frames: Vec<Value> = crate::store::read_frames(&data_dir.join("events.jsonl")).into_iter().filter(|f| f["session_id"].as_str() == Some(sid.as_str())).collect();
+    let reason = frames.iter().rev().find(|f| f["type"] == "session_ended").and_then(|f| f["reason"].as_str()).unwrap_or("<none>").to_string();
+    let all = provider.bodies();
+    let bodies = all[prior_requests.min(all.len())..].to_vec();
+    let mut files: Vec<String> = std::fs::read_dir(&ws).unwrap().filter_map(|e| e.ok()).map(|e| e.file_name().to_string_lossy().to_string()).filter(|n| n != ".rip" && n != "seed.txt").collect();
+    files.sort();
+    let log = std::fs::read(data_dir.join("events.jsonl")).unwrap_or_default();
+    E2eResult { log, bodies, frames, reason, files }
 }
 
 fn items_of(body: &Value, followup: Option<&str>, t: &mut Intern) -> Vec<String> {
@@ -610,6 +678,10 @@ fn e2e_cases(rep: &mut Report, model: &mut Model, rng: &mut Rng, n: u64, big: bo
         let wild = !big && rng.chance(1, 3);
         let exact = big && rng.chance(1, 2); // turns of exactly 8 calls: the bound is met between turns
         let tool_choice = if big && !ToolChoiceParam::new(tool_choice.clone()).errors().is_empty() { json!("auto") } else { tool_choice };
+        // one case in four runs as the answer to a later message of a thread (compiled context as the
+        // first request's input); that path has no tool-choice override
+        let prior = if rng.chance(1, 4) { rng.range(1, 2) as usize } else { 0 };
+        let tool_choice = if prior > 0 { json!("auto") } else { tool_choice };
         let tcp = ToolChoiceParam::new(tool_choice.clone());
         let config_valid = tcp.errors().is_empty();
         let nresp = if big { rng.range(6, 10) } else { rng.range(1, 4) };
@@ -635,7 +707,32 @@ fn e2e_cases(rep: &mut Report, model: &mut Model, rng: &mut Rng, n: u64, big: bo
             script.push(ScriptResp { ok, has_id: has_id && ok, events: if ok { events } else { vec![] }, resp });
         }
         let cfg = E2eConfig { stateless, followup: followup.clone(), tool_choice: tool_choice.clone(), parallel: rng.chance(1, 2) };
-        let res = run_e2e(&cfg, script.iter().map(|s| s.resp.clone()).collect(), "hello");
+        let mut res = if prior > 0 {
+            run_e2e_thread(&cfg, prior, script.iter().map(|s| s.resp.clone()).collect(), "hello")
+        } else {
+            run_e2e(&cfg, script.iter().map(|s| s.resp.clone()).collect(), "hello")
+        };
+        // thread runs: the compiled context (the whole first input, 2*prior + 1 items) plays the part
+        // of the prompt. Where a stateless follow-up repeats it, it is folded into the one item the
+        // model has for the prompt; where it does not, nothing is folded and the comparison shows it.
+        let raw_bodies = res.bodies.clone();
+        if prior > 0 {
+            let ctx: Vec<Value> = res.bodies.first().and_then(|b| b["input"].as_array().cloned()).unwrap_or_default();
+            if ctx.len() == 2 * prior + 1 && ctx.iter().all(|it| it["type"] != "function_call" && it["type"] != "function_call_output") {
+                for b in res.bodies.iter_mut() {
+                    if let Some(a) = b["input"].as_array().cloned() {
+                        if a.len() >= ctx.len() && a[..ctx.len()] == ctx[..] {
+                            let mut folded = vec![ctx[ctx.len() - 1].clone()];
+                            folded.extend_from_slice(&a[ctx.len()..]);
+                            b["input"] = Value::Array(folded);
+                        }
+                    }
+                }
+            } else {
+                rep.oracle_failure("C16|thread-run-first-input-is-not-the-compiled-context", &format!("a run answering message {} of a thread started from {} input items", prior + 1, ctx.len()), json!({"prior": prior, "first_input": ctx}));
+            }
+            rep.count("e2e_thread_runs");
+        }
         // ---- model ----
         let tc_tok = tc_token(&tool_choice, &mut t);
         let mut line = format!("c16l {} {} {} {} {}", stateless as u8, followup.is_some() as u8, if config_valid { 2 } else { 0 }, tc_tok, script.len());
@@ -704,7 +801,7 @@ fn e2e_cases(rep: &mut Report, model: &mut Model, rng: &mut Rng, n: u64, big: bo
         if res.bodies.len() >= 2 {
             rep.nontrivial_case(&line);
         }
-        let case = json!({"case": case_no, "stateless": stateless, "followup_user_message": followup, "tool_choice": tool_choice, "script": script.iter().map(|s| json!({"ok": s.ok, "has_response_id": s.has_id, "events": s.events.iter().map(|e| e.json()).collect::<Vec<_>>()})).collect::<Vec<_>>(), "line": line});
+        let case = json!({"case": case_no, "earlier_thread_turns": prior, "stateless": stateless, "followup_user_message": followup, "tool_choice": tool_choice, "script": script.iter().map(|s| json!({"ok": s.ok, "has_response_id": s.has_id, "events": s.events.iter().map(|e| e.json()).collect::<Vec<_>>()})).collect::<Vec<_>>(), "line": line});
         if m.starts_with("reason=script-exhausted") && res.bodies.len() <= script.len() {
             // the model wanted one more response than scripted and the implementation did not ask for it
             rep.disagreement("tool loop", case.clone(), &imp, &m);
@@ -714,10 +811,10 @@ fn e2e_cases(rep: &mut Report, model: &mut Model, rng: &mut Rng, n: u64, big: bo
         // ---- implementation oracles ----
         // (a) stateless: each request's input extends the previous one
         if stateless {
-            for w in res.bodies.windows(2) {
+            for w in raw_bodies.windows(2) {
                 let (a, b) = (w[0]["input"].as_array().cloned().unwrap_or_default(), w[1]["input"].as_array().cloned().unwrap_or_default());
                 if !(b.len() >= a.len() && b[..a.len()] == a[..]) {
-                    let sig = if followup.is_some() { "C16|stateless-input-not-extended|followup-message" } else { "C16|stateless-input-not-extended" };
+                    let sig = if prior > 0 { "C16|stateless-input-not-extended|thread-context" } else if followup.is_some() { "C16|stateless-input-not-extended|followup-message" } else { "C16|stateless-input-not-extended" };
                     rep.oracle_failure(sig, "stateless history: a request's input does not extend the previous request's input", json!({"case": case, "previous_input": w[0]["input"], "next_input": w[1]["input"]}));
                     break;
                 }
